@@ -189,4 +189,50 @@ def setOffset (f : Fam) (x : Obj) (arg : Int) : Except Err Obj :=
     .ok { x with ip := ip }
   else .error .addressValueError
 
+/-! ### `collapse_addresses` (C12, correspondence only)
+
+The function maps every object to `obj.network` and calls
+`ipaddress.collapse_addresses`.  Below: that stdlib routine for a list of networks
+(`_collapse_addresses_internal`), networks as `(network address, prefix length)`. -/
+
+abbrev Net := Nat × Nat
+
+/-- `obj.network`: `IPv4Network(network_object.compressed)` -/
+def network (x : Obj) : Net := (x.net, x.len)
+
+/-- `net.supernet()` (one bit shorter; `/0` is its own supernet) -/
+def supernet (f : Fam) (n : Net) : Net :=
+  if n.2 = 0 then n else (netOf f n.1 (n.2 - 1), n.2 - 1)
+
+def netLe (a b : Net) : Bool := a.1 < b.1 || (a.1 == b.1 && a.2 ≤ b.2)
+
+def netBcast (f : Fam) (n : Net) : Nat := n.1 + (2 ^ (f.w - n.2) - 1)
+
+/-- the `while to_merge:` loop; `subnets` is the dict `supernet → net` as an association list.
+`fuel` only bounds the recursion (the caller passes more than the loop can use). -/
+def mergeLoop (f : Fam) : Nat → List Net → List (Net × Net) → List (Net × Net)
+  | 0, _, subnets => subnets
+  | _, [], subnets => subnets
+  | fuel + 1, net :: rest, subnets =>
+    let sup := supernet f net
+    match subnets.lookup sup with
+    | none => mergeLoop f fuel rest ((sup, net) :: subnets)
+    | some existing =>
+      if existing ≠ net then mergeLoop f fuel (sup :: rest) (subnets.filter (fun e => e.1 ≠ sup))
+      else mergeLoop f fuel rest subnets
+
+/-- the final pass: ascending, skipping a network covered by the last one kept -/
+def dropCovered (f : Fam) : Option Net → List Net → List Net
+  | _, [] => []
+  | none, n :: ns => n :: dropCovered f (some n) ns
+  | some last, n :: ns =>
+    if netBcast f last ≥ netBcast f n then dropCovered f (some last) ns
+    else n :: dropCovered f (some n) ns
+
+/-- `list(collapse_addresses(objs))`; `to_merge.pop()` takes from the end of the list -/
+def collapse (f : Fam) (objs : List Obj) : List Net :=
+  let toMerge := (objs.map network).reverse
+  let subnets := mergeLoop f ((f.w + 2) * (toMerge.length + 1)) toMerge []
+  dropCovered f none ((subnets.map (·.2)).mergeSort netLe)
+
 end Ccp.IPVal
